@@ -1,5 +1,5 @@
 """C01 - expressions group by precedence, associate left, unary tightest, operands in order."""
-import json, os
+import json, os, sys
 import vcommon as V
 import syntaxcommon as S
 
@@ -89,6 +89,30 @@ def chains(gen, rng, sample=None):
     return out
 
 
+def long_spines(gen, rng, lengths):
+    """left spines of n binary operators (one tree level per operator - what generated code such as a long concatenation looks like): one
+    operator name repeated, names of one level mixed, and spines that run down through tighter levels (a*b*c.. + d + e ..), atoms all
+    different so that the order of the operands shows in the listing"""
+    P = gen.p
+    out = []
+    for n in lengths:
+        for style in ("one", "level", "descend"):
+            k = rng.choice([1, 2, 3, 4, 5, 6, 7]) if style != "descend" else None
+            nm1 = P.binary_at(rng, k) if k else None
+            t = ("num", "0")
+            for i in range(n):
+                if style == "one":
+                    kk, nm = k, nm1
+                elif style == "level":
+                    kk, nm = k, P.binary_at(rng, k)
+                else:       # tightest operators innermost: the level falls (or stays) as the spine goes outwards
+                    kk = max(1, 9 - (i * 9) // n)
+                    nm = P.binary_at(rng, kk)
+                t = ("bin", kk, S.recase(rng, nm), t, ("num", str(i + 1)) if i % 3 else ("var", "v%d" % i))
+            out.append(("spine:%s/%d" % (style, n), [("expr", t)]))
+    return out
+
+
 def garbage(rng, n):
     alpha = list(b"aftpruexl_AFTP019.+-*/%^!<>=&|#:$\"'()[]{};, \t\n\r?@\\~`") + [0x80, 0xff, 0x0b]
     words = [b"true", b"false", b"private", b"tru", b"fals", b"priv", b"TRUE", b"Private", b"0x", b"0x1f", b"$", b"$g", b"1e", b"1e+", b"1.",
@@ -173,6 +197,11 @@ def main(replay=None):
             add_tree("comment:d%d" % depth, gen.stmts(depth, rng.choice([1, 1, 2])), rng.choice([0.0, 0.15]), 0.3, comments=rng.choice([0.15, 0.3, 0.5]))
         for kind, ss in chains(gen, rng, None if thorough else 60):
             add_tree(kind, ss, rng.choice([0.0, 0.0, 0.3]), 0.3)
+        # long left spines, around the sizes where an implementation might switch strategy (powers of two) and well beyond
+        sys.setrecursionlimit(20000)
+        lens = [31, 32, 33, 63, 64, 65, 127, 128, 129, 255, 256, 257, 258, 300, 511, 512, 513, 700] if thorough else [64, 129, 255, 256, 257, 300, 513]
+        for kind, ss in long_spines(gen, rng, lens + [rng.randint(20, 700) for _ in range(12 if thorough else 3)]):
+            add_tree(kind, ss, 0.0, 0.3)
         # the recorded defect: a unary+nular name used as an operand (real names first, then the harness's own)
         for nm in (P.real_UN + [n for n in P.UN if n not in P.real_UN]):
             for ss in ([("assign", "x", ("nul", nm))], [("expr", ("bin", 6, "*", ("nul", S.recase(rng, nm)), ("num", "1")))],
@@ -266,7 +295,7 @@ def main(replay=None):
     run.cov["evaluations"] = 2 * len(cases)
     run.cov["distinct_nontrivial"] = len(distinct)
     run.cov["rule"] = ("expression trees over literals, variables, arrays, code blocks, statements and every class of registered operator "
-                       "(all 400 parent/child level shapes, random trees of depth <= 6, boundary cases, a sweep over operator names, chains of one operator name repeated), printed with "
+                       "(all 400 parent/child level shapes, random trees of depth <= 6, boundary cases, a sweep over operator names, chains of one operator name repeated, left spines of up to 700 operators), printed with "
                        "minimal or redundant parentheses, random separators, whitespace and letter case; plus damaged renderings and character "
                        "soup compared model-vs-implementation only. A case is non-trivial when the implementation's listing equals the "
                        "post-order of the documented reading; distinct by that listing")
